@@ -10,6 +10,7 @@ CONSTANTS
   Plans = {"whole", "hdr", "key", "pay"}
   Frames <- FramesQuick
   MaxFrames = 4
+  Spellings <- SpellCanon
   Pres = {"none"}
   PushPays <- PushNone
 INIT MCInit
